@@ -545,14 +545,14 @@ class IrToWasmCompiler:
 
     cast_operators2 = {
         # float to int:
-        "F32TOI32": ["f32.nearest", "i32.trunc_f32_s"],
-        "F32TOU32": ["f32.nearest", "i64.trunc_f32_u"],
-        "F32TOI64": ["f32.nearest", "i64.trunc_f32_s"],
-        "F32TOU64": ["f32.nearest", "i64.trunc_f32_u"],
-        "F64TOI64": ["f64.nearest", "i64.trunc_f64_s"],
-        "F64TOU64": ["f64.nearest", "i64.trunc_f64_u"],
-        "F64TOI32": ["f64.nearest", "i32.trunc_f64_s"],
-        "F64TOU32": ["f64.nearest", "i64.trunc_f64_u"],
+        "F32TOI32": ["i32.trunc_f32_s"],
+        "F32TOU32": ["i64.trunc_f32_u"],
+        "F32TOI64": ["i64.trunc_f32_s"],
+        "F32TOU64": ["i64.trunc_f32_u"],
+        "F64TOI64": ["i64.trunc_f64_s"],
+        "F64TOU64": ["i64.trunc_f64_u"],
+        "F64TOI32": ["i32.trunc_f64_s"],
+        "F64TOU32": ["i64.trunc_f64_u"],
         # int to float 64:
         "U64TOF64": ["f64.convert_i64_u"],
         "I64TOF64": ["f64.convert_i64_s"],
@@ -560,7 +560,7 @@ class IrToWasmCompiler:
         "I32TOF64": ["f64.convert_i32_s"],
         # int to float 32
         "I32TOF32": ["f32.convert_i32_s"],
-        "U32TOF32": ["f32.convert_i32_u"],
+        "U32TOF32": ["f32.convert_i64_u"],
         "I64TOF32": ["f32.convert_i64_s"],
         "U64TOF32": ["f32.convert_i64_u"],
         # float to float:
@@ -568,7 +568,7 @@ class IrToWasmCompiler:
         "F32TOF64": ["f64.promote_f32"],
         # 32 -- 64
         "I32TOI64": ["i64.extend_i32_s"],
-        "I32TOU64": ["i64.extend_i32_u"],
+        "I32TOU64": ["i64.extend_i32_s"],
         # i64 -- 32
         "U64TOI32": ["i32.wrap_i64"],
         "I64TOI32": ["i32.wrap_i64"],
